@@ -39,7 +39,7 @@ def buflogic(n, p=0, timeout=900, overrun=0, bufsz=None):
 
 
 def lemma(n, timeout=900, solver=None):
-    us = {"SCPI_RegSet.0": 4, "SCPI_ErrorPushEx.0": 10}
+    us = {"SCPI_RegSet.0": 4, "SCPI_ErrorPushEx.0": 10, "scpiParser_parseAllProgramData.0": n // 2 + 2}
     return Case("stability-n%d" % n, H, SRCS, defs=["-DN=%d" % n, "-DPART=2"], unwind=n + 3, unwindset=us, timeout=timeout, solver=solver,
                 mem_est=10, functions=FUNCS[1:],
                 bounds=dict(input="every byte string of 2..%d bytes over the 16-symbol alphabet, every shorter prefix of it" % n,
